@@ -398,6 +398,28 @@ func runFixed(c *ctx) {
 	for cp := rune(0x80); cp <= 0xff; cp++ {
 		texts = append(texts, strings.Repeat("a", 997)+string(cp)+"b\n")
 	}
+	// Latin-1 texts whose bytes happen to be well-formed in ANOTHER encoding (what quoted mojibake
+	// looks like: "Ã©", "Â°"): every two-byte UTF-8 sequence read as two Latin-1 characters, a sample of
+	// the three- and four-byte ones, and texts that start with a byte-order mark. An implementation that
+	// sniffs the encoding instead of using the declared one gives these back as different text.
+	for lead := rune(0xC2); lead <= 0xDF; lead++ {
+		for cont := rune(0x80); cont <= 0xBF; cont++ {
+			texts = append(texts, "x"+string(lead)+string(cont)+"y")
+		}
+	}
+	for lead := rune(0xE1); lead <= 0xEF; lead++ {
+		for cont := rune(0x80); cont <= 0xBF; cont += 9 {
+			texts = append(texts, string(lead)+string(cont)+string(0xBF-(cont-0x80))+" ok\n")
+		}
+	}
+	for lead := rune(0xF1); lead <= 0xF3; lead++ {
+		texts = append(texts, "a"+string(lead)+"\u0080\u00bf\u0081\n", string(lead)+"\u0090\u0080\u0080")
+	}
+	for _, bom := range []string{"\u00ef\u00bb\u00bf", "\u00ff\u00fe", "\u00fe\u00ff", "\u00ff\u00fe\x00\x00", "+/v8", "\x1b$B", "\x1b(B"} {
+		texts = append(texts, bom, bom+"text\n", bom+"h\x00i\x00\n", "x"+bom+"\n")
+	}
+	texts = append(texts, "Your last message showed up as: Bl\u00c3\u00a5b\u00c3\u00a6rsyltet\u00c3\u00b8y\n", "Temp 21\u00c2\u00b0C\n", "3\u00c3\u00b74 \u00c2\u00abok\u00c2\u00bb \u00c2\u00bd",
+		"=?utf-8?q?x?=", "=C3=A9 =E9 =\n", "=\r\n", "--boundary\n", "\u00e2\u0082\u00ac 5\n")
 	for _, t := range texts {
 		eval(c, t)
 	}
@@ -405,7 +427,25 @@ func runFixed(c *ctx) {
 }
 
 func genLine(r *rand.Rand, n int) string {
-	cls := r.Intn(4)
+	cls := r.Intn(5)
+	if cls == 4 {
+		// a line whose Latin-1 bytes are well-formed UTF-8 without being ASCII ("mojibake")
+		var b []rune
+		for len(b) < n {
+			if r.Intn(3) > 0 {
+				b = append(b, rune(0x20+r.Intn(0x5f)))
+				continue
+			}
+			cp := rune(0x80 + r.Intn(0x780))
+			if r.Intn(4) == 0 {
+				cp = rune(0x800 + r.Intn(0xD000))
+			}
+			for _, by := range []byte(string(cp)) {
+				b = append(b, rune(by))
+			}
+		}
+		return string(b[:n])
+	}
 	rs := make([]rune, n)
 	for i := range rs {
 		var ch rune
